@@ -56,6 +56,9 @@ type env = {
   budget : int;
   block : int list;                  (* names bound in the current block *)
   forbid : IS.t;                     (* names that may not be bound in the current block *)
+  sib : IS.t;                        (* names used freely by the nested functions directly before this point:
+                                        an adjacent following function may not take them (adjacent nested
+                                        functions are mutually visible in Never, not in Eval.v) *)
   loopd : int;
   recf : recf option;
 }
@@ -102,7 +105,7 @@ let defaults = [
   (* idioms: percent chance each per main *)
   "id_counter", 0; "id_adder", 0; "id_loopcap", 0; "id_reccap", 0; "id_compose", 0;
   "id_alias", 0; "id_catch", 0; "id_shadow", 0; "id_order", 0; "id_tail", 0; "id_agg", 0; "id_mutual", 0;
-  "id_pipe", 0; "pp_pipe", 0; "id_shadow2", 0; "id_deepcap", 0;
+  "id_pipe", 0; "pp_pipe", 0; "id_shadow2", 0; "id_shadow3", 0; "id_deepcap", 0;
   "id_repeat", 1;
 ]
 
@@ -115,10 +118,10 @@ let profiles = [
   "alias", ["id_alias", 100; "id_repeat", 4; "i_var", 50; "it_assign", 40; "it_var", 35; "it_let", 25;
             "t_rec", 18; "t_arr", 18; "varparam", 50; "dump", 95; "i_cond", 14; "i_assign", 10; "nrecs_max", 3;
             "x_var", 60; "i_block", 6];
-  "closure", ["id_deepcap", 75; "id_counter", 70; "id_adder", 50; "id_loopcap", 40; "id_reccap", 50; "id_compose", 40;
+  "closure", ["id_deepcap", 75; "id_shadow3", 45; "id_counter", 70; "id_adder", 50; "id_loopcap", 40; "id_reccap", 50; "id_compose", 40;
               "it_func", 22; "t_fun", 25; "i_fcall", 18; "i_applam", 6; "rf_fun", 30; "nfuncs_max", 4;
               "depth", 3; "dump", 70];
-  "shadow", ["shadow", 65; "id_shadow", 80; "id_shadow2", 60; "id_deepcap", 35; "it_func", 16; "it_let", 30; "it_var", 30; "i_block", 10;
+  "shadow", ["shadow", 65; "id_shadow", 80; "id_shadow2", 60; "id_shadow3", 85; "id_deepcap", 35; "it_func", 16; "it_let", 30; "it_var", 30; "i_block", 10;
              "i_applam", 6; "t_fun", 14; "dump", 80; "block_items", 3; "i_fcall", 10; "catch", 15];
   "loops", ["it_loop", 30; "i_loop", 4; "id_loopcap", 20; "main_items", 6; "dump", 80; "fault", 4;
             "t_arr", 16; "i_index", 14];
@@ -132,7 +135,7 @@ let profiles = [
               "nfuncs_max", 2; "main_items", 3; "depth", 2];
   "pipe", ["pp_pipe", 65; "id_pipe", 100; "id_repeat", 2; "i_call", 25; "i_fcall", 10; "it_call", 14; "it_func", 14; "t_fun", 14;
            "id_tail", 25; "id_order", 40; "f_rec", 25; "tail_lo", 30; "tail_hi", 120; "nfuncs_min", 2; "nfuncs_max", 4];
-  "mix", ["pp_pipe", 8; "id_pipe", 10; "id_deepcap", 15; "id_counter", 15; "id_adder", 10; "id_loopcap", 10; "id_reccap", 10; "id_compose", 10; "id_alias", 25;
+  "mix", ["pp_pipe", 8; "id_pipe", 10; "id_deepcap", 15; "id_shadow3", 15; "id_counter", 15; "id_adder", 10; "id_loopcap", 10; "id_reccap", 10; "id_compose", 10; "id_alias", 25;
           "id_catch", 25; "id_shadow", 15; "id_shadow2", 10; "id_order", 20; "id_agg", 20; "shadow", 15; "catch", 20; "fault", 8;
           "it_func", 10; "t_fun", 12];
 ]
@@ -179,6 +182,21 @@ let rec fun_free st seen = function
 
 let tick st env = st.cost <- st.cost + env.mult; st.nodes <- st.nodes + 1
 let over st env = st.cost > env.budget || st.nodes > w st "max_nodes"
+
+(* Names that may not be bound later in the current block because an earlier closure of the block
+   captures them: the pinned compiler aborts ("unknown freevar") only when the captured binding
+   belongs to the SAME function as the block (direct capture).  A name bound in an enclosing
+   function or at top level (transitively captured) may be re-bound later — that compiles and must
+   keep its lexical meaning. *)
+let late_forbidden env (names : IS.t) : IS.t =
+  IS.filter (fun n -> match resolve env n with
+      | Some (v : vinfo) -> v.lvl = env.lvl
+      | None -> false) names
+
+let sib_after env (its : item list) : IS.t =
+  List.fold_left (fun s it -> match it with
+      | IFunc fd -> IS.union s (Uniq.free_of_fdef ~named:true fd)
+      | _ -> IS.empty) env.sib its
 
 (* a new binder name for the current block *)
 let new_name ?(avoid = []) st env =
@@ -309,11 +327,11 @@ and new_record st env r d : expr =
 and gen_lambda st env args ret d : expr * k =
   let saved = st.cost in
   st.cost <- 0;
-  let names = List.fold_left (fun acc _ -> new_name ~avoid:acc st { env with block = []; forbid = IS.empty } :: acc) [] args in
+  let names = List.fold_left (fun acc _ -> new_name ~avoid:acc st { env with block = []; forbid = IS.empty; sib = IS.empty } :: acc) [] args in
   let names = List.rev names in
   let params = List.map2 (fun n t -> mkv n t BParam (env.lvl + 1)) names args in
   let env' = { vars = List.rev_append (List.rev params) env.vars; lvl = env.lvl + 1; mult = 1;
-               budget = w st "esc"; block = []; forbid = IS.empty; loopd = 0; recf = None } in
+               budget = w st "esc"; block = []; forbid = IS.empty; sib = IS.empty; loopd = 0; recf = None } in
   let body, _ = gen_block st env' ret d ~items:(if d > 0 then Rng.int st.rng 2 else 0) in
   let catches, call = gen_catches st env' ret (min d 1) in
   st.cost <- saved + 1;
@@ -547,7 +565,7 @@ and gen_assign st env ty d : (expr * k) option =
 
 (* ---- blocks and items ---------------------------------------------------------------------- *)
 and gen_block st env ty d ~items : item list * k =
-  let env0 = { env with block = []; forbid = IS.empty } in
+  let env0 = { env with block = []; forbid = IS.empty; sib = IS.empty } in
   gen_block_in st env0 ty d ~items
 
 (* like gen_block but keeps env.block / env.forbid (the caller prepared them) *)
@@ -563,7 +581,8 @@ and gen_items st env d ~items : env * item list =
     else
       let its, env' = gen_item st env d in
       let env' = if w st "late_shadow" > 0 then env' else
-          { env' with forbid = List.fold_left (fun s it -> IS.union s (Uniq.closure_free_of_item it)) env'.forbid its } in
+          { env' with forbid = List.fold_left (fun s it -> IS.union s (late_forbidden env (Uniq.closure_free_of_item it))) env'.forbid its } in
+      let env' = { env' with sib = sib_after env its } in
       go env' (n - 1) (List.rev_append its acc) in
   let env', acc = go env items [] in
   (env', List.rev acc)
@@ -573,7 +592,7 @@ and gen_binding st env d : item list * env =
   let isvar = Rng.pct st.rng (100 * w st "it_var" / (1 + w st "it_var" + w st "it_let")) in
   let e = if isvar then gen_nonconst st env ty d else fst (gen_expr st env ty d ~op:false) in
   (* the new name may not be one that a closure inside e captures (see `forbid`) *)
-  let cf = if w st "late_shadow" > 0 then [] else (let acc = ref IS.empty in Uniq.closure_free_expr acc e; IS.elements !acc) in
+  let cf = if w st "late_shadow" > 0 then [] else (let acc = ref IS.empty in Uniq.closure_free_expr acc e; IS.elements (late_forbidden env !acc)) in
   let n = new_name ~avoid:cf st env in
   let v = mkv n ty (if isvar then BVar else BLet) env.lvl in
   ([if isvar then IVar (n_of_int n, e) else ILet (n_of_int n, e)], bind env v)
@@ -631,7 +650,7 @@ and gen_loop st env d : item list =
   let cond = if down then EBin (Gt0, ev i, bound) else EBin (Lt0, ev i, bound) in
   let incr = EAssign (ev i, EBin ((if down then Sub else Add), ev i, ei step)) in
   let env_b = { (bind env vi) with mult = env.mult * (max 1 n); loopd = env.loopd + 1;
-                                   block = []; forbid = IS.singleton i } in
+                                   block = []; forbid = IS.singleton i; sib = IS.empty } in
   let env_b = { env_b with recf = None } in
   let body, _ = gen_block_in st env_b TInt (min d 2) ~items:(1 + Rng.int st.rng 2) in
   flag st "loop";
@@ -678,8 +697,8 @@ and gen_named_func ?(toplevel = false) ?kind st env d : fdef * vinfo =
   let kind = match kind with
     | Some k -> k
     | None -> Rng.weighted st.rng [w st "f_plain", `Plain; w st "f_rec", `Rec; w st "f_tail", `Tail] in
-  let name = new_name st env in
-  let scope = { env with block = []; forbid = IS.empty } in
+  let name = new_name ~avoid:(IS.elements env.sib) st env in
+  let scope = { env with block = []; forbid = IS.empty; sib = IS.empty } in
   let ret = match kind with
     | `Tail -> TInt
     | `Rec -> Rng.weighted st.rng [70, TInt; 15, TBool; 15, rand_type ~allow_fun:false st]
@@ -714,7 +733,7 @@ and gen_named_func ?(toplevel = false) ?kind st env d : fdef * vinfo =
       mkv ~prot:(Some x = measure_name) x t (if isvar then BVarParam else BParam) (env.lvl + 1)) params in
   let budget = if toplevel then w st "budget_fn" else w st "esc" in
   let env_f = { vars = List.rev_append pvs (self :: env.vars); lvl = env.lvl + 1; mult = 1; budget;
-                block = []; forbid = IS.empty; loopd = 0; recf = None } in
+                block = []; forbid = IS.empty; sib = IS.empty; loopd = 0; recf = None } in
   let saved = st.cost in
   st.cost <- 0;
   let tailpos = ref false in
@@ -746,7 +765,7 @@ and gen_named_func ?(toplevel = false) ?kind st env d : fdef * vinfo =
             15, (fun () ->
                 tailpos := true;
                 (* the items of this block may not hide f or n: the call is its last item *)
-                let env', its = gen_items st { env_r with block = []; forbid = IS.of_list [name; m]; recf = None } 1 ~items:1 in
+                let env', its = gen_items st { env_r with block = []; forbid = IS.of_list [name; m]; sib = IS.empty; recf = None } 1 ~items:1 in
                 EBlock (its @ [IExpr (call_in { env' with recf = Some r })]));
             15, (fun () -> let c = call () in EBin (Add, c, fst (gen_expr st env_r TInt (max d 2) ~op:true))) ] ()
         | TBool when Rng.bool st.rng -> ENot (call ())
